@@ -22,6 +22,20 @@ CHECKS["C09"] = dict(
     technique="CrossHair symbolic execution of the Python primitives vs single-source spec + z3 check of folded literals",
     engine="E-PY",
 )
+CHECKS["C01"] = dict(
+    category="translation_validation",
+    text="For every generated coroutine body (grammar of DESIGN App. C: awaits on conditions, await true, if/else with awaits, while with break/continue/return, awaited sub-coroutines) the emitted state machine (interpreted VHDL) is proved equivalent to the reference coroutine semantics R by pair induction: a control-state relation is discovered by solver-driven closure and, for every pair with ARBITRARY equal data, z3 proves equal registers/outputs after one clock for all inputs -- i.e. all input sequences of any length. A failing step is confirmed by BMC from power-up and a concrete replay before it is reported.",
+    design_ref="DESIGN.md 3/C01, 2.2, 2.6, App. B",
+    note="Trusted: VHDL-subset semantics, R (written from the property statement), z3. Programs enumerated (core exhaustive + seeded), inputs/schedules symbolic. If induction does not close the result for that program is bounded (BMC depth K) and says so.",
+    technique="pair induction (z3) between interpreted emitted VHDL and reference coroutine semantics; BMC + replay to confirm",
+)
+CHECKS["C04"] = dict(
+    category="translation_validation",
+    text="Generated contexts wrapped with every reset flavour (sync/async x polarity x clock edge x objects with default / without / noreset x on_reset action): control pairs discovered by pair induction; from every pair with ARBITRARY data z3 decides reset scenarios S1-S6 (active at the edge, async assertion without edge / while clock stable, held over further edges, release without edge, sync pulse between edges has no effect).",
+    design_ref="DESIGN.md 3/C04",
+    note="Trusted: event-driven VHDL-subset semantics (sensitivity lists honoured), R, z3. Arbitrary pre-state is a superset of reachable states; 'behaves as after power-up' follows from state equality on resettable objects plus the C01-style equivalence proved for the same program.",
+    technique="one-step symbolic reset scenarios from arbitrary paired states (z3 over interpreted VHDL)",
+)
 NA = {}
 manifest = {
     "version": 1,
